@@ -114,6 +114,16 @@ func (fr *Frame) applyContract(s *State, c *Contract, callee *types.Func, recv *
 		side = side[:0]
 		s.assume(t)
 	}
+	for _, gp := range c.GhostPuts {
+		ov, kv, vv := env2.eval(gp.Obj.E), env2.eval(gp.Key.E), env2.eval(gp.Val.E)
+		if env2.err != nil {
+			fr.vc.failed = fmt.Errorf("contract %s: ghostput: %v", c.Key, env2.err)
+			return results
+		}
+		hn, hs := ghostMapHeap(gp.Map)
+		h := s.heap(hn, hs)
+		s.setHeap(hn, hs, fmt.Sprintf("(store %s %s (store (select %s %s) %s %s))", h, ov.S, h, ov.S, kv.S, vv.S))
+	}
 	// ghost-set effects: object and element may mention the results (e.g. "added only when the call succeeded")
 	for _, ga := range c.GhostAdds {
 		ov := env2.eval(ga.Obj.E)
@@ -174,6 +184,11 @@ func (e *Engine) designatorHeaps(c *Contract, f *types.Func, d string) (map[stri
 	}
 	if strings.HasPrefix(d, "ghost(") && strings.HasSuffix(d, ")") {
 		hn, hs := ghostHeap(d[6 : len(d)-1])
+		out[hn] = hs
+		return out, nil
+	}
+	if strings.HasPrefix(d, "ghostmap(") && strings.HasSuffix(d, ")") {
+		hn, hs := ghostMapHeap(d[9 : len(d)-1])
 		out[hn] = hs
 		return out, nil
 	}
@@ -298,7 +313,7 @@ func (fr *Frame) havocDesignator(s, pre *State, c *Contract, f *types.Func, d st
 		fr.havocEverything(s)
 		return nil
 	}
-	if strings.HasPrefix(d, "heap(") || d == "big" || d == "streams" || strings.HasPrefix(d, "mapof(") || strings.HasPrefix(d, "ghost(") {
+	if strings.HasPrefix(d, "heap(") || d == "big" || d == "streams" || strings.HasPrefix(d, "mapof(") || strings.HasPrefix(d, "ghost(") || strings.HasPrefix(d, "ghostmap(") {
 		hs, err := fr.eng.designatorHeaps(c, f, d)
 		if err != nil {
 			return err
